@@ -12,4 +12,4 @@ echo "== tests:"; /venv/bin/python -m pytest -q -p no:cacheprovider --deselect t
 for P in "$@"; do
   echo "== check $P:"; (cd /verif && ./check "$P" 2>/dev/null | grep -v WARNING | tail -2; )
 done
-git checkout -- . ; git status --short | head -3; (cd /verif && PYTHONPATH=/verif /venv/bin/python -W ignore -m harness.effects_scan --emit >/dev/null 2>&1)
+git checkout -- . ; git status --short | head -3; (cd /verif && PYTHONPATH=/verif /venv/bin/python -W ignore -m harness.effects_scan --emit >/dev/null 2>&1; PYTHONPATH=/verif /venv/bin/python -W ignore -m harness.lexer_extract >/dev/null 2>&1)
